@@ -96,7 +96,7 @@ def check(report, tier, seed):
             for name, hx in rows:
                 rows_checked += 1
                 # bank outputs are shown before the clock edge
-                val = cy["pre"].get(name) if re.match(r"^[A-Z]_", name) and name in cy["pre"] else cy["post"].get(name)
+                val = cy["pre"].get(name) if len(name) > 1 and name[0].isupper() and name[1] == "_" and name in cy["pre"] else cy["post"].get(name)
                 if val is None:
                     report.violation("table-unknown-wire", "cycle %d: table lists %s which has no value" % (k, name), {"case": c})
                     continue
